@@ -40,6 +40,14 @@ def MaybeOwned.Owned : Nat := 17
 def MaybeOwned.Borrowed : Nat := 18
 def Direction.Next : Nat := 19
 def Direction.Prev : Nat := 20
+def ptr : Nat := 22                 -- a raw pointer the `Sem` handed out: `*p` and `*p = v` are the `Sem`'s
+def Ordering.Relaxed : Nat := 30
+def Ordering.Release : Nat := 31
+def Ordering.Acquire : Nat := 32
+def Ordering.AcqRel : Nat := 33
+def Ordering.SeqCst : Nat := 34
+def SyntaxElement.Node : Nat := 10
+def SyntaxElement.Token : Nat := 11
 -- built-in methods (interpreted by the evaluator)
 def is_some : Nat := 100
 def is_none : Nat := 101
@@ -90,6 +98,9 @@ def insert : Nat := 226
 def raw : Nat := 227
 def offset : Nat := 228
 -- free functions / associated functions
+def drop : Nat := 307
+def Box.from_raw : Nat := 308
+def ptr_write : Nat := 309
 def mem_replace : Nat := 300     -- `std::mem::replace(place, v)`: yields the old value, stores `v`
 def mem_take : Nat := 301
 def TextRange.at : Nat := 302
@@ -126,7 +137,19 @@ def try_get_or_intern : Nat := 235
 def get_or_intern : Nat := 236
 def try_resolve : Nat := 237
 def resolve : Nat := 238
+def deref : Nat := 119
 def data : Nat := 239
+def fetch_add : Nat := 241
+def fetch_sub : Nat := 242
+def get_unchecked : Nat := 243
+def read : Nat := 244
+
+def root : Nat := 246
+def clone_uncounted : Nat := 247
+def drop_recursive : Nat := 248
+def as_ptr : Nat := 249
+def parent : Nat := 250
+def load : Nat := 251
 def resolver : Nat := 240
 def get : Nat := 229
 def checked_sub : Nat := 230
@@ -138,6 +161,9 @@ def into_owned : Nat := 234
 def field.text : Nat := 613
 def field.kind : Nat := 614
 def field.text_len : Nat := 615
+def field.ref_count : Nat := 616
+def field.data : Nat := 617
+def field.child_locks : Nat := 618
 def field.parent_idx : Nat := 610
 def field.child_idx : Nat := 611
 def field.interner : Nat := 612
@@ -262,6 +288,13 @@ def Env.set (ρ : Env) (x : Nat) (v : Val) : Env :=
   | [] => [(x, v)]
   | (y, w) :: ρ' => if x == y then (y, v) :: ρ' else (y, w) :: Env.set ρ' x v
 
+/-- the effect log lives in the environment under this id -/
+def logId : Nat := 99999
+def Env.log (ρ : Env) (ev : Val) : Env :=
+  match ρ.get logId with
+  | some (.ctor 0 evs) => ρ.set logId (.ctor 0 (evs ++ [ev]))
+  | _ => ρ.set logId (.ctor 0 [ev])
+
 def recGet (fs : List (Nat × Val)) (f : Nat) : Option Val := Env.get fs f
 def recSet (fs : List (Nat × Val)) (f : Nat) (v : Val) : List (Nat × Val) := Env.set fs f v
 
@@ -272,6 +305,7 @@ def recSet (fs : List (Nat × Val)) (f : Nat) (v : Val) : List (Nat × Val) := E
 inductive MRes where
   | ok (v : Val) (recv : Val)
   | okM (v : Val) (recv : Val) (args : List Val)       -- also the arguments afterwards (`&mut` parameters)
+  | okE (v : Val) (recv : Val) (event : Val)           -- an effect outside the function's own places: appended to the log
   | panic
   | unknown
 
@@ -382,6 +416,10 @@ def binop (op : Nat) (a b : Val) : Option Val :=
       else none
     | _, _ => none
 
+def isOpt : Val → Bool
+  | .ctor c _ => c == N.Some || c == N.None
+  | _ => false
+
 def isSym : Val → Bool
   | .sym _ _ => true
   | _ => false
@@ -424,7 +462,7 @@ def eval (S : Sem) : Nat → Env → Expr → Res
           | _, _ => .stuck
         | _ => .stuck
       else match evalL S fuel ρ args with
-        | .ok vs ρ' => (match S.call f vs with | .ok v _ => .ok v ρ' | .okM v _ _ => .ok v ρ' | .panic => .panic ρ' | .unknown => .stuck)
+        | .ok vs ρ' => (match S.call f vs with | .ok v _ => .ok v ρ' | .okM v _ _ => .ok v ρ' | .okE v _ ev => .ok v (ρ'.log ev) | .panic => .panic ρ' | .unknown => .stuck)
         | .ret v ρ' => .ret v ρ' | .brk ρ' => .brk ρ' | .panic ρp => .panic ρp | .stuck => .stuck
     | .app f args => match eval S fuel ρ f with
       | .ok (.fn k) ρ' => (match evalL S fuel ρ' args with
@@ -478,7 +516,7 @@ def eval (S : Sem) : Nat → Env → Expr → Res
               (match va, vb with
                | .nat _, .nat _ => if op == N.sub then .panic ρ'' else .stuck
                | _, _ => (match S.call op [va, vb] with
-                 | .ok v _ => .ok v ρ'' | .okM v _ _ => .ok v ρ'' | .panic => .panic ρ'' | .unknown => .stuck)))
+                 | .ok v _ => .ok v ρ'' | .okM v _ _ => .ok v ρ'' | .okE v _ ev => .ok v (ρ''.log ev) | .panic => .panic ρ'' | .unknown => .stuck)))
           | r => r)
       | r => r
     | .neg a => match eval S fuel ρ a with
@@ -547,7 +585,7 @@ def eval (S : Sem) : Nat → Env → Expr → Res
         | [] => .stuck
       else if m == N.format then
         match evalL S fuel ρ args with
-        | .ok vs ρ' => (match S.call N.format vs with | .ok v _ => .ok v ρ' | .okM v _ _ => .ok v ρ' | .panic => .panic ρ' | .unknown => .stuck)
+        | .ok vs ρ' => (match S.call N.format vs with | .ok v _ => .ok v ρ' | .okM v _ _ => .ok v ρ' | .okE v _ ev => .ok v (ρ'.log ev) | .panic => .panic ρ' | .unknown => .stuck)
         | .ret v ρ' => .ret v ρ' | .brk ρ' => .brk ρ' | .panic ρp => .panic ρp | .stuck => .stuck
       else .stuck
 
@@ -622,11 +660,8 @@ def evalMeth (S : Sem) : Nat → Env → Expr → Val → Nat → List Expr → 
   | fuel + 1, ρ, recv, rv, m, args =>
     if m == N.clone || m == N.into || m == N.as_ref || m == N.as_mut || m == N.cloned || m == N.copied then
       (match args with | [] => .ok rv ρ | _ => .stuck)
-    else if m == N.is_some then (match rv with
-      | .ctor c _ => if c == N.Some then .ok (.bool true) ρ else if c == N.None then .ok (.bool false) ρ else .stuck
-      | _ => .stuck)
-    else if m == N.is_none then (match rv with
-      | .ctor c _ => if c == N.Some then .ok (.bool false) ρ else if c == N.None then .ok (.bool true) ρ else .stuck
+    else if (m == N.is_some || m == N.is_none) && isOpt rv then (match rv with
+      | .ctor c _ => .ok (.bool ((c == N.Some) == (m == N.is_some))) ρ
       | _ => .stuck)
     else if m == N.unwrap || m == N.expect then (match rv with
       | .ctor c vs => if c == N.Some || c == N.Ok then (match vs with | [v] => .ok v ρ | _ => .stuck)
@@ -690,6 +725,9 @@ def evalMeth (S : Sem) : Nat → Env → Expr → Val → Nat → List Expr → 
              if isPlace recv then (match writePlace ρ'' recv rv' with | some ρ3 => .ok r ρ3 | none => .stuck)
              else .ok r ρ''
            | none => .stuck)
+        | .okE r rv' ev =>
+          if isPlace recv then (match writePlace ρ' recv rv' with | some ρ'' => .ok r (ρ''.log ev) | none => .stuck)
+          else .ok r (ρ'.log ev)
         | .panic => .panic ρ'
         | .unknown => .stuck)
       | .ret v ρ' => .ret v ρ' | .brk ρ' => .brk ρ' | .panic ρp => .panic ρp | .stuck => .stuck
